@@ -2,6 +2,8 @@ package hist
 
 import (
 	"fmt"
+	"github.com/xuperchain/xupercore/protos"
+	"math/big"
 	"math/rand"
 	"strings"
 
@@ -43,9 +45,45 @@ func (s *SUT) junkBlock(rng *rand.Rand, kind string) (*pb.InternalBlock, string)
 	if tip < 0 {
 		return nil, ""
 	}
-	classes := []string{"missing-input", "out-more", "frozen-input", "dup-input", "cite-more"}
+	classes := []string{"missing-input", "out-more", "frozen-input", "dup-input", "cite-more", "pool-conflict+bad-signature", "pool-conflict+bad-signature"}
 	cl := classes[rng.Intn(len(classes))]
-	bad := s.Hostile(rng, cl)
+	var bad []*pb.Transaction
+	if cl == "pool-conflict+bad-signature" {
+		// a transaction that spends the input of a POOL transaction (so that Play first rolls the
+		// pool transaction back as conflicting) and whose signature does not verify (so that the
+		// block is then refused by verification, before anything is executed)
+		pool, _ := s.N.State.GetUnconfirmedTx(false)
+		for _, p := range pool {
+			if len(p.TxInputs) == 0 || p.Coinbase {
+				continue
+			}
+			in := *p.TxInputs[0]
+			k := sn.KeyByAddr(string(in.FromAddr))
+			if k == nil {
+				continue
+			}
+			s.hn++
+			q, err := sn.BuildTx(sn.TxSpec{Initiator: k.Address, Signers: []*sn.Key{k}, Inputs: []*protos.TxInput{&in},
+				Outputs: []sn.Out{{To: sn.K(rng.Intn(6)).Address, Amount: new(big.Int).SetBytes(in.Amount)}}, Nonce: fmt.Sprintf("pc%d", s.hn), Timestamp: int64(5000 + s.hn)})
+			if err != nil || len(q.InitiatorSigns) == 0 {
+				continue
+			}
+			sg := q.InitiatorSigns[0].Sign
+			sg[len(sg)/2] ^= 0x40
+			for _, a := range q.AuthRequireSigns {
+				a.Sign = sg
+			}
+			q, _ = sn.Wire(q)
+			bad = []*pb.Transaction{q}
+			break
+		}
+		if bad == nil {
+			cl = "missing-input"
+		}
+	}
+	if bad == nil {
+		bad = s.Hostile(rng, cl)
+	}
 	if len(bad) == 0 || bad[0] == nil {
 		return nil, ""
 	}
